@@ -945,7 +945,9 @@ def desc_refinement_violations(built, v, t=None, path="$", siblings=None, out=No
     if k == "ann":
         r = satisfies(v, None, shadow_mh(t[2]), {})
         if r is not None:
-            out.append((path, t[2][0], r))
+            # a refinement stacked on an already refined type (Annotated[Annotated[T, A], B]) is named as such: python
+            # flattens the two annotations into one
+            out.append((path, t[2][0] + ("/stacked-on-a-refined-type" if t[1][0] == "ann" else ""), r))
         desc_refinement_violations(built, v, t[1], path, None, out, depth + 1)
     elif k == "dep":
         names = t[2].split(",")
